@@ -79,6 +79,7 @@ type HarnessSpec struct {
 	ExecTimeoutS int            `json:"exec_timeout_s,omitempty"` // budget for the symbolic execution itself (default 1800 s); exceeding it is a tool error (inconclusive)
 	Prune     bool              `json:"prune,omitempty"`      // ask the solver at every symbolic branch whether each arm is feasible; dead arms are not explored
 	ApproxBitops bool           `json:"approx_bitops,omitempty"` // int mode: inexpressible bit operations yield an arbitrary value (effect harnesses only)
+	BigBytesLen   *int          `json:"big_bytes_len,omitempty"`   // case split: assume that the first value-dependent big.Int.Bytes() result has exactly this many bytes
 	BigBytesHavoc int           `json:"big_bytes_havoc,omitempty"` // big.Int.Bytes() of a symbolic value: fresh slice of this length, arbitrary content (effect analysis)
 	BigShared bool              `json:"big_shared,omitempty"` // math/big storage-sharing model: struct copies of a big.Int share the limbs
 	External  []string          `json:"external,omitempty"`  // package path prefixes treated as uninterpreted
@@ -376,6 +377,10 @@ func newMachine(prog *ssa.Program, h HarnessSpec) *Machine {
 	m.externalPkgs = h.External
 	m.bigShared = h.BigShared
 	m.bigBytesHavoc = h.BigBytesHavoc
+	m.bigBytesLen = -1
+	if h.BigBytesLen != nil {
+		m.bigBytesLen = *h.BigBytesLen
+	}
 	m.approxBits = h.ApproxBitops
 	m.wrapConv = h.WrapConv
 	m.prune = h.Prune
